@@ -50,6 +50,16 @@ CHECKS.update({
                      "and all (pairs of) default tokens of the look-alike universe; on the real code every case must call the constructor "
                      "exactly once, bind present fields to loaded values, and leave absent fields typed-equal (identical for singletons, "
                      "fresh for factories) to the declared default, for plain / dataclass / attrs / NamedTuple classes."),
+    "C13": dict(technique="TLA+ spec Link.tla (documented linking search, symbolic plan per destination field) model-checked by TLC; every "
+                          "enumerated program built with dataclasses + impl_converter + public link providers and run on tagged values",
+                category="model_checking", design_ref="6/C13",
+                note="trusts: tagged int values identify sources; dataclass kind; bounded field sets / parameters / recipe length "
+                     "(1 exhaustive + <= 3 by simulation quick, 2 exhaustive thorough)",
+                text="TLC checks that the documented linking search is first-match in recipe order and that parameters beat same-named "
+                     "fields for top-level destination fields only, and enumerates every program with the plan (source field / parameter / "
+                     "constant / function) of every top-level and nested destination field; the real converter must be created exactly when "
+                     "every field has a source, equal the plan field-wise, leave the source unmodified, keep the stub's signature and "
+                     "name, and give an equal fresh object on a repeated call."),
     "C14": dict(technique="TLA+ spec Convert.tla (documented Coercible relation + value-set semantics) model-checked by TLC through MC_Convert.tla "
                           "(reflexive, as-is rules type-sound, compound rules monotone); every ordered type pair x context replayed on get_converter",
                 category="model_checking", design_ref="6/C14",
